@@ -80,6 +80,16 @@ CHECKS = {
    text="1,885 histories of <=3 messages (quick; <=4 thorough, two start zones) on a journal-backed SqliteZoneHandler; at every journal_insert_record hook point and acknowledgement the durable row count is read and a real SOA query is answered (in-flight serials); for every distinct crash point a fresh journal with exactly those rows is recovered with recover_with_journal (46 k / 979 k recoveries and continuation steps). Recovered content+serial must equal the crash-free state before or after the in-flight message, never below any answered serial; every continuation message must give the same rcode and state as on the never-crashed handler; a second crash inside the continuation is enumerated.",
    note="Trusted: SQLite's atomic commit per statement/transaction (crash = what the second connection sees committed); serial-wrap regimes and torn pages not covered.",
    design="6/C14, 11"),
+ "C15": dict(level="model_checking", engine="E-STATE",
+   technique="explicit-state breadth-first search to the fixpoint of canonical states over insert/get/clear/clear_query/advance histories executed on the real ResponseCache with an explicit virtual 'now', x 38 TTL-bound configurations, every transition and a look-ahead probe sequence compared with a reference cache model written from the statement",
+   text="Queries (n1,A),(n1,AAAA),(n2,TXT); 33 result shapes (positive with 1-2 records TTL 0/1/2/5, CNAME+target, CNAME only, authority/additional with larger/smaller TTLs, answers without the query type; negative with negative_ttl None/0/1/3/5; 9 error kinds); dt in {0,400,600,1000,2000,4000} ms; 38 global/per-type positive/negative bound configurations with min<=max. Grids: single query x all configurations x full alphabets to fixpoint (26 k states / 933 k transitions), pair and triple grids on sub-alphabets (quick 190 k states / 4.7 M transitions; thorough 1.7 M states / 58 M transitions), far TTLs around the one-day default and u32::MAX; a matching-free cross-run reaches exactly the BFS's states. Oracle: a hit is the last cacheable insert, not later than L, every TTL = clamped stored TTL - whole seconds elapsed, never increases; negative bounds; transient errors never returned.",
+   note="Trusted: vref::cache (DESIGN's per-type-clamped reading of L; the unclamped reading is logged as an observation), canonical-key argument backed by the same-key/different-history differential and the matching-free cross-run. `now` is 30 days ahead of the real clock so moka's own expiry never fires. min>max configurations panic in insert: outside the statement, observation.",
+   design="6/C15, 11"),
+ "C17": dict(level="model_checking", engine="E-STATE",
+   technique="explicit-state breadth-first search to the fixpoint over every environment answer at every poll_read / poll_write / poll_flush / driver decision point of the real TcpStream state machine (and its TcpClientStream / TimeoutStream wrappers), with state matching validated by a matching-free exhaustive cross-run, against a two-byte-length framing reference",
+   text="The real TcpStream::from_stream + BufDnsStreamHandle over a scripted socket polled by hand: at every poll_read Pending / every n in 1..=min(buf,remaining) / EOF at every byte position / I/O error; at every poll_write[_vectored] Pending / every n in 1..=offered across both slices / error; flush Ok/Pending/error; messages handed over at every driver point; 1..3 messages of lengths {1,2,3,255} (quick) / {1,2,3,255,256,300} (thorough) plus zero-length frames; read, write, joint, TcpClientStream and TimeoutStream grids: 711 k states / 19 M transitions quick, 330 M transitions thorough, all to fixpoint; cross-run of 29 M / 72 M unmatched runs reaches exactly the BFS states. Oracle: yielded items are exactly the framed messages in order; EOF at a boundary ends cleanly, inside a prefix or body errors; accepted bytes are always a prefix of len16(m1) m1 len16(m2) m2 ...; every fair continuation completes.",
+   note="Trusted: vref::frame; Ok(0) writes excluded (outside the statement); waker registration / lost wake-ups are not judged (the driver always re-polls); messages >65,535 not covered.",
+   design="6/C17, 11"),
 }
 
 NOT_BUILT_REASON = "check not built yet at this commit (design in DESIGN.md section 6); not claimed until its quick tier runs clean"
